@@ -21,6 +21,8 @@ CLAIMS = {
          "quality/distinctness of CSPRNG output is probabilistic; ssh-ed25519 Wrap and plugin grease sites not yet under contract"),
  "C07": ("proof of leaf and structural contracts: isValidString iff all bytes in 33..126 (rune abstraction); splitArgs re-joins to the line; ReadStanza sticky error, valid type/args, body lines of exactly 48 decoded bytes until a short one, progress; Parse rejects with (nil,nil), 32-byte MAC, payload is a suffix of the input stream in both the bufio and MultiReader branches; writeWrapped emits exactly wrapcols(written, p) (64-column wrapping proved against a recursive spec); DecodeString strict/canonical.",
          "text-level inverse lemmas (Parse o Marshal = id) are not mechanised; base64 encoder composition assumed; bufio/strings contracts assumed"),
+ "C08": ("proof of the armor state machines: the writer emits the BEGIN line exactly once and before any encoded byte (also when Close is the first call), Close emits the END line preceded by a newline iff the last base64 line is non-empty and its output is BEGIN-less text = out0 ++ wrapcols(0, base64(data)) ++ footer; the reader stores and returns every failure as *armor.Error, never returns data after an error, accepts only lines of at most 64 columns of strict padded base64, rejects empty body lines, requires the END line right after a short line, decodes one line per refill and bounds leading/trailing whitespace by 1024 bytes.",
+         "standard base64 encoder/decoder contracts assumed (stdb64ok/stdb64dec uninterpreted); composition of base64.NewEncoder with the proved writeWrapped assumed; text-level re-armor identity not mechanised"),
  "C10": ("proof: ScryptIdentity.Unwrap rejects (non-EII error, no scrypt.Key call) whenever a scrypt stanza is not the only stanza, at any position; unwrap calls scrypt.Key only with a canonical decimal work factor 1..maxWorkFactor, N = 2^logN, r=8, p=1; WrapWithLabels returns one fresh 128-bit hex label; digitsRe initialiser pinned to ^[1-9][0-9]*$.",
          "two fresh 128-bit labels differ: probabilistic; cmd/age LazyScryptIdentity not yet under contract"),
  "C11": ("proof: slicesEqual iff element-wise equal; Encrypt sorts every recipient's labels (count ghost), compares each later recipient against the first, and on every refusing return (no recipients, wrap error, incompatible labels) dst's ghost output is unchanged and Header.Marshal has not been called.",
@@ -34,7 +36,7 @@ CLAIMS = {
 }
 
 NOT_YET = {
- "C08": "armor writer/reader contracts not built yet (engine under construction)",
+
  "C09": "bech32 contracts need the bit-vector mode, not built yet",
  "C15": "cmd/age and cmd/age-keygen contracts not built yet",
  "C16": "plugin client loop contracts not built yet",
